@@ -217,7 +217,63 @@ def generate(ctx):
 
 
 # ---------------------------------------------------------------------------- implementation side
+_HANGS = [0]
+
+
 def impl(case):
+    """Runs the real call in a forked child: a broken list (cycle) makes the C loop spin forever without ever
+    returning to the interpreter, and an out-of-range link can kill the process.  Both are outcomes of the case,
+    reported as {"crash": ...}.  The first hang is given 20 s; once one has been seen the limit drops (the run is
+    failing anyway and hundreds of hanging cases must not take hours)."""
+    import select
+    import signal
+    import time
+    from centrosome import cpmorphology as _M     # noqa: import in the parent so that children do not re-import
+    r, w = os.pipe()
+    pid = os.fork()
+    if pid == 0:
+        try:
+            os.close(r)
+            signal.alarm(0)
+            try:
+                o = _impl(case)
+            except BaseException as e:      # noqa
+                o = {"exc": type(e).__name__, "msg": str(e)[:300]}
+            data = json.dumps(o).encode()
+            while data:
+                n = os.write(w, data)
+                data = data[n:]
+        finally:
+            os._exit(0)
+    os.close(w)
+    limit = 20.0 if _HANGS[0] == 0 else (2.0 if _HANGS[0] < 5 else 0.5)
+    t_end = time.time() + limit
+    buf = b""
+    hung = False
+    while True:
+        left = t_end - time.time()
+        if left <= 0:
+            hung = True
+            break
+        ready, _, _ = select.select([r], [], [], left)
+        if ready:
+            chunk = os.read(r, 1 << 16)
+            if not chunk:
+                break
+            buf += chunk
+    os.close(r)
+    if hung:
+        os.kill(pid, signal.SIGKILL)
+    _, status = os.waitpid(pid, 0)
+    if hung:
+        _HANGS[0] += 1
+        return {"crash": "hang", "detail": "grey_reconstruction did not return within %.1f s" % limit}
+    if not buf:
+        return {"crash": "child died", "detail": "wait status %d" % status}
+    return json.loads(buf.decode())
+
+
+def _impl(case):
     from centrosome import cpmorphology as M
     enc = case["enc"]
     img = _encode(enc, case["seed"], "seed")
